@@ -207,6 +207,19 @@ def units(prog):
         return sp
     us.append(Unit('v1.send_update_message[ext-community text]', 'yabgp.api.v1.send_update_message', build, spec, kind='view',
                    props=(ID,)))
+
+    # the second REST entry point with its own copy of the translation: json_to_bin hands the same item to the encoder
+    def spec_j2b(c, *a, **k):
+        kind, f, S = c.it._ec
+        s = Sim(c)
+        msg = {'attr': {1: 0, 2: [], 3: '10.0.0.1', 5: 100, 16: [translated(kind, f)]}, 'nlri': ['1.1.1.0/24'], 'withdraw': []}
+        s.eff('Call', CS.BGP + 'construct_update_to_bin', (msg,))
+        s.ret = ANY
+        sp = s.spec()
+        sp.effects = vis(sp.effects)
+        sp.effect_filter = vis
+        return sp
+    us.append(Unit('v1.json_to_bin[ext-community text]', 'yabgp.api.v1.json_to_bin', build, spec_j2b, kind='view', props=(ID,)))
     return us
 
 
@@ -214,6 +227,10 @@ def run(tier, seed, only=None):
     prog = make_prog()
     q = CS.BGP + 'send_update'
     prog.contracts[q] = Contract(q, prog.contracts[q].spec, mark=True)
+    # construct_update_to_bin: observed through a marked contract (its result — octets or the text "construct failed" — is
+    # not constrained here; the encoder itself is the ExtCommunity.construct unit)
+    q2 = CS.BGP + 'construct_update_to_bin'
+    prog.contracts[q2] = Contract(q2, lambda c, P, msg: Spec(ret=SBytes.fresh('update_bin')), mark=True)
     known = load_known()
     run = Run(ID, tier, seed)
     run.trusted = [T3, T4, T5, T6, 'T3-flask: request.get_json() returns the posted JSON object; decorators transparent']
